@@ -263,35 +263,10 @@ fn complete_handshake(s: &mut Server, port: u16, cfg: &EndpointConfig, t: u64) -
     true
 }
 
-//@h props=C17 tier=thorough timeout=3000 group=heavy role=server-limits-overlap args=--no-memory-safety-checks
-//@fn Server::{handle_frame, handle_handshake_syn, handle_handshake_ack}
-//@bound limits (max_total 2, max_active 1); addresses A, B; compatible SYNs from both BEFORE any ACK, then both ACKs with the nonces the server generated
-//@assume VecMap; opaque connection model; socket model; nonce source any; crc stubbed
-#[kani::proof]
-#[kani::unwind(6)]
-#[kani::stub(crate::frame::serial::crc::compute, crate::frame::serial::verif_codec::crc_stub)]
-fn o17_1_many_syns_before_any_ack() {
-    let cfg = EndpointConfig::default();
-    let mut s = mk_server(2, 1, cfg.clone());
-    // the server's nonces are pinned (whether an ACK carries the right nonce decides a heap-modifying branch, DESIGN.md 10.8);
-    // any nonce, right or wrong, is the subject of o7_1_server_connect_requires_nonce and the o8_2_server_pending_* obligations
-    unsafe { env::RANDOM_FIXED = Some(0x1111_1111); }
-    s.handle_frame(addr(A), frame::Frame::HandshakeSynFrame(ok_syn()), 0);
-    let na = unsafe { env::RANDOM_LAST };
-    unsafe { env::RANDOM_FIXED = Some(0x2222_2222); }
-    s.handle_frame(addr(B), frame::Frame::HandshakeSynFrame(ok_syn()), 0);
-    let nb = unsafe { env::RANDOM_LAST };
-    unsafe { env::RANDOM_FIXED = Some(0x3333_3333); }
-    assert!(s.clients.len() <= 2, "[C17] never more than max_total_connections tracked");
-    s.handle_frame(addr(A), frame::Frame::HandshakeAckFrame(frame::HandshakeAckFrame { nonce_ack: na }), 1);
-    assert!(n_established(&s) <= 1);
-    s.handle_frame(addr(B), frame::Frame::HandshakeAckFrame(frame::HandshakeAckFrame { nonce_ack: nb }), 2);
-    assert!(n_established(&s) <= 1, "[C17] never more than max_active_connections established");
-    assert!(count_events(&s, A).0 + count_events(&s, B).0 <= 1, "[C17] never more Connects than max_active_connections allows");
-    assert!(s.clients.len() <= 2, "[C17] never more than max_total_connections tracked");
-    kani::cover!(n_established(&s) == 1, "one connection established");
-    std::mem::forget(s);
-}
+// (The first build's script "SYN A, SYN B, ACK A, ACK B through the code" (limits 2,1) is retired: after handshakes run through the
+// code the second ACK exhausts CBMC's memory (DESIGN.md 10.8).  Its clauses are decided from constructed states by
+// o17_1_refused_at_ack_time_frees_its_slot (ACK-time limit, which also re-finds F8 on the pre-fix tree), o17_1_total_limit_refuses_with_server_full
+// and o17_1_active_limit_refuses_syn.)
 
 //@h props=C17 tier=quick timeout=2400 role=server-limits-total args=--no-memory-safety-checks
 //@fn Server::{handle_frame, handle_handshake_syn}
@@ -314,30 +289,27 @@ fn o17_1_total_limit_refuses_with_server_full() {
     std::mem::forget(s);
 }
 
-//@h props=C17 tier=thorough timeout=3600 group=heavy role=server-limits-capacity-returns args=--no-memory-safety-checks
-//@fn Server::{handle_frame, handle_handshake_syn, handle_handshake_ack, handle_disconnect, handle_events, handle_event, drop}, retain of active_clients as in step()
-//@bound limits (1, 1); A connects; A's connection ends by application drop() or by peer Disconnect + closed-state timeout (any); then B's handshake
-//@assume VecMap; opaque connection model; socket model; nonce source any; crc stubbed
+//@h props=C17,C08 tier=quick timeout=1200 role=server-limits-capacity-returns args=--no-memory-safety-checks
+//@fn Server::{handle_event, handle_frame, handle_handshake_syn}
+//@bound limits (1,1); address A in state Closed (constructed; it left the active list in an earlier step), its forget timer entry fires at any time; then a SYN from B
+//@assume as o8_2_server_pending_frame_syn (constructed lifecycle state; the timer loop of handle_events is modelled by calling handle_event on the entry)
 #[kani::proof]
 #[kani::unwind(6)]
 #[kani::stub(crate::frame::serial::crc::compute, crate::frame::serial::verif_codec::crc_stub)]
 fn o17_1_capacity_returns_after_connection_ends() {
     let cfg = EndpointConfig::default();
-    let mut s = mk_server(1, 1, cfg.clone());
-    assert!(complete_handshake(&mut s, A, &cfg, 0));
-    assert!(class_of(&s, A) == 2);
-    if kani::any() {
-        s.drop(&addr(A));
-    } else {
-        s.handle_frame(addr(A), frame::Frame::DisconnectFrame(frame::DisconnectFrame {}), 10);
-        assert!(class_of(&s, A) == 4);
-        s.handle_events(10 + 20000);
-    }
-    assert!(class_of(&s, A) == 0);
-    // what step() does between handle_events and step_active_clients
-    s.active_clients.retain(|client| client.borrow().is_active());
-    let ok = complete_handshake(&mut s, B, &cfg, 30011);
-    assert!(ok && class_of(&s, B) == 2 && count_events(&s, B).0 == 1, "[C17] capacity becomes available again when a connection ends");
+    let mut s = mk_server(1, 1, cfg);
+    let ra = Rc::new(RefCell::new(remote_client::RemoteClient { address: addr(A), max_packet_size: 1000, state: remote_client::State::Closed }));
+    s.clients.insert(addr(A), Rc::clone(&ra));
+    // while A is still tracked the server is full
+    s.handle_frame(addr(B), frame::Frame::HandshakeSynFrame(ok_syn()), 5);
+    assert!(class_of(&s, B) == 0 && s.socket.sent_n() == 1 && s.socket.sent(0).head[0] == 3 && s.socket.sent(0).head[5] == 2, "[C17] max_total_connections counts a connection until it is forgotten: ServerFull");
+    let t = any_time();
+    s.handle_event(event_queue::Event::new(Rc::clone(&ra), event_queue::EventType::ClosedTimeout, 0, 0), t);
+    assert!(class_of(&s, A) == 0 && s.clients.len() == 0, "[C17] the closed connection is forgotten when its timer fires");
+    s.handle_frame(addr(B), frame::Frame::HandshakeSynFrame(ok_syn()), t);
+    assert!(class_of(&s, B) == 1 && s.socket.sent_n() == 2 && s.socket.sent(1).head[0] == 1, "[C17] capacity becomes available again when a connection ends: SYN-ACK");
+    std::mem::forget(ra);
     std::mem::forget(s);
 }
 
